@@ -102,6 +102,17 @@ FireHa(x, S, m) ==
   IF S = {} THEN x
   ELSE LET u == CHOOSE v \in S : \A v2 \in S : v.id <= v2.id
        IN FireHa([x EXCEPT !.cb = Append(@, <<u.id, IF m.f /\ u.fam = "hastate" THEN "hastate_once" ELSE "hastate", m.d, <<>> >>)], S \ {u}, m)
+\* Connection-state callbacks (handed to bluetooth_device_connect).  One registered `once` drops its own
+\* subscription from inside the callback when it is told "disconnected" - possible only once the connect call has
+\* returned the unsubscribe function - without disturbing the delivery in progress.
+OpOfNum(n) == CASE n = 101 -> "o1" [] n = 102 -> "o2" [] n = 103 -> "o3"
+RECURSIVE FireConn(_, _, _)
+FireConn(x, S, m) ==
+  IF S = {} THEN x
+  ELSE LET u == CHOOSE v \in S : \A v2 \in S : v.id <= v2.id
+           x1 == [x EXCEPT !.cb = Append(@, <<u.id, IF m.f THEN "connected" ELSE "disconnected", m.a, <<>> >>)]
+           x2 == IF u.once /\ ~m.f /\ u \in x1.subs /\ x.ops[OpOfNum(u.id)].st = "none" THEN [x1 EXCEPT !.subs = @ \ {u}] ELSE x1
+       IN FireConn(x2, S \ {u}, m)
 Parts(x, u, key) == IF \E r \in x.img : r.sub = u.id /\ r.key = key
                     THEN (CHOOSE r \in x.img : r.sub = u.id /\ r.key = key).parts ELSE <<>>
 RECURSIVE Camera(_, _, _)
@@ -130,7 +141,7 @@ Dispatch(x, m) ==
     [] m.k = "free" -> FireAll(x1, SubsOf(x1, "free"), "free", m.d)
     [] m.k = "ndata" -> FireAll(x1, {u \in SubsOf(x1, "ndata") : u.a = m.a /\ u.h = m.h}, "ndata", m.d)
     \* (the connect operation itself resolves on ANY report for its address: ConnectTake)
-    [] m.k = "conn" -> FireAll(x1, {u \in SubsOf(x1, "connstate") : u.a = m.a}, IF m.f THEN "connected" ELSE "disconnected", m.a)
+    [] m.k = "conn" -> FireConn(x1, {u \in SubsOf(x1, "connstate") : u.a = m.a}, m)
     [] m.k = "vareq" ->
          IF ~x1.va.on THEN x1
          ELSE IF m.f THEN      \* start: a handler task starts eagerly; its answer is written when it is done
@@ -190,11 +201,13 @@ UserOp(x0, i, k, a, h) ==
   IF ~x.up THEN Done(x, i, "ANY", <<>>)
   ELSE IF k \in {"writenr"} THEN Done(Write(x, "BluetoothGATTWriteRequest"), i, "ok", <<>>)
   ELSE
-   LET op == [k |-> k, a |-> a, h |-> h, st |-> "pending", wake |-> "none", acc |-> <<>>,
-              ph |-> IF k = "connect" THEN "conn" ELSE "none", at |-> x.now + TBle]
-       x1 == AddTimer(Write([x EXCEPT !.ops[i] = op], Request(k)), OpTimer(i), x.now + TBle)
-   IN CASE k = "notify"  -> [x1 EXCEPT !.subs = @ \cup {[id |-> OpNum(i), fam |-> "ndata", a |-> a, h |-> h, once |-> FALSE]}]
-        [] k = "connect" -> [x1 EXCEPT !.subs = @ \cup {[id |-> OpNum(i), fam |-> "connstate", a |-> a, h |-> 0, once |-> FALSE]}]
+   \* "connect_auto": a connect whose state callback unsubscribes itself when told "disconnected"
+   LET kk == IF k = "connect_auto" THEN "connect" ELSE k
+       op == [k |-> kk, a |-> a, h |-> h, st |-> "pending", wake |-> "none", acc |-> <<>>,
+              ph |-> IF kk = "connect" THEN "conn" ELSE "none", at |-> x.now + TBle]
+       x1 == AddTimer(Write([x EXCEPT !.ops[i] = op], Request(kk)), OpTimer(i), x.now + TBle)
+   IN CASE kk = "notify"  -> [x1 EXCEPT !.subs = @ \cup {[id |-> OpNum(i), fam |-> "ndata", a |-> a, h |-> h, once |-> FALSE]}]
+        [] kk = "connect" -> [x1 EXCEPT !.subs = @ \cup {[id |-> OpNum(i), fam |-> "connstate", a |-> a, h |-> 0, once |-> (k = "connect_auto")]}]
         [] OTHER -> x1
 
 OpTimerFire(x0, i) ==
